@@ -547,10 +547,52 @@ def rule_R7_engine(ctx, prj: Project, full: bool) -> str:
         ctx.info(f"engine not evaluable ({type(e).__name__}: {e}) on tree #{n}; falling back to the structural rules")
         ctx.rule("R7", "engine not evaluable by the interpreter: structural rules R1, R4, R5, R6 apply instead", floor=0)
         return "fallback"
+    # operator objects used more than once: at two positions of one expression, and in two expressions compiled one
+    # after the other (a sub-pattern bound to a name and reused) - every compilation must denote the tree's language
+    nshared = 0
+    try:
+        if not bad:
+            A, B = trees[0], trees[1]
+            fam = []
+            for op in ("opt", "star", "plus"):
+                X = Pat(op, [A])
+                fam.append([Pat("seq", [X, B, X])])
+                fam.append([Pat("union", [X, Pat("seq", [B, X])])])
+                fam.append([Pat("seq", [X, B]), Pat("seq", [X]), Pat("seq", [X, B])])
+                fam.append([Pat("seq", [B, X]), Pat("seq", [X, A]), Pat("seq", [X])])
+                Y = Pat(op, [Pat("seq", [A, B])])
+                fam.append([Pat("seq", [Y, A, Y]), Pat("seq", [Y])])
+            U = Pat("union", [A, B])
+            fam.append([Pat("seq", [U, A, U]), Pat("seq", [U, U])])
+            for group in fam:
+                shared: dict = {}
+                for k, p in enumerate(group):
+                    nshared += 1
+                    d = eng.dfa_of(eng.expr(p, shared))
+                    g = eng.graph(d)
+                    det = is_deterministic(g[2], g[3])
+                    diff = None if det else shortest_difference(language_dfa(*g, alphabet), reference_dfa(p, alphabet), alphabet)
+                    ctx.obligations += 1
+                    how = ("one operator object at two positions of the expression" if k == 0 else
+                           f"an operator object already used in {k} expression(s) compiled before")
+                    if det:
+                        bad = bad or (p, f"({how}) the automaton built by nfa_to_dfa is not deterministic: {det}")
+                    elif diff is not None:
+                        w, got_acc = diff
+                        bad = bad or (p, f"({how}) it {'accepts' if got_acc else 'rejects'} the word [{' '.join(w) or 'ε'}] although "
+                                         f"that word is {'not in' if got_acc else 'in'} the pattern's language")
+                    else:
+                        ctx.discharged += 1
+    except (Unknown, PyRaise) as e:
+        ctx.info(f"engine not evaluable on re-used operator objects ({type(e).__name__}: {e}); that part is not decided")
+        nshared = 0
     if bad:
         p, msg = bad
         ctx.viol("R7", "engine/" + repr(p)[:80], eng.n2d.site(), f"for the pattern {p!r}: {msg}")
         return "violation"
+    if nshared:
+        ctx.ok("R7", eng.e2n.site(), f"{nshared} compilations of expressions that re-use an operator object (two positions / "
+                                     f"successive expressions): every one denotes its tree's language")
     ctx.instances.setdefault("R7", []).extend(dict(site=eng.e2n.site(), what=f"tree #{i}", verdict="ok") for i in range(n))
     ctx.lines.append(f"OK rule=R7 site={eng.e2n.site()} construct=engine trees={n} all deterministic and language-equivalent")
     ctx.extra["engine_trees"] = n
